@@ -170,6 +170,12 @@ def extract(config, release=False, repo=None, quiet=True, _retry=0):
     facts, folded = fold_new_modules(facts)
     if folded:
         meta["folded_modules"] = folded
+    facts, renamed = fold_renames(facts, config)
+    if renamed:
+        meta["renamed_items"] = renamed
+    facts, plain = fold_plain_structs(facts)
+    if plain:
+        meta["structs_as_tuples"] = plain
     meta["wall_s"] = round(time.time() - t0, 2)
     meta["fns"] = len(facts["fns"])
     meta["adts"] = len(facts["adts"])
@@ -221,6 +227,178 @@ def fold_new_modules(facts):
     if not folded:
         return facts, []
     return json.loads(text), folded
+
+
+def fn_signature(f):
+    """what identifies a function apart from its name: where it lives, what it takes and returns, what it calls"""
+    calls = set()
+    for blk in f["blocks"]:
+        t = blk["term"]
+        if t["t"] == "call" and not blk["cleanup"]:
+            n = t.get("resolved") or t.get("callee")
+            if n:
+                calls.add(re.sub(r"::<[^:]*>", "", n))
+    return {"kind": f["kind"], "parent": f.get("parent") or "", "impl_trait": f.get("impl_trait") or "",
+            "sig": [l["t"] for l in f["locals"][:f["argc"] + 1]], "calls": sorted(calls)}
+
+
+def adt_shape(a):
+    return {"variants": [{"n": v["n"], "fields": [[fd["n"], fd["t"]] for fd in v["fields"]]} for v in a["variants"]]}
+
+
+_STD_NAMES = {"Some", "None", "Ok", "Err", "Break", "Continue", "Less", "Equal", "Greater", "Ready", "Pending"}
+
+
+def _path_sub(text, new, old):
+    return re.sub(r"(?<![A-Za-z0-9_:])" + re.escape(new) + r"(?![A-Za-z0-9_])", old.replace("\\", "\\\\"), text)
+
+
+def fold_renames(facts, config):
+    """Renaming a private item is not behaviour.  An item of the reference tree that is gone, and a new item in the same place with the same shape
+    (a type: same variants and field types; a function: same parent, parameter and return types -- ties broken by what it calls), are the same item
+    under a new name: the reference name is put back in every path of the facts (fields and variants of a matched type likewise, when the new name
+    is unique in the crate), so the rules find `platform::unix::recv` or `UnixCmsg.cmsg_buffer` under whatever the maintainers call them today.
+    Matches must be one-to-one; anything ambiguous is left alone (and the anchors say what they miss)."""
+    try:
+        inv = json.load(open(os.path.join(VERIF, "tables", "known_fns.json"))).get("by_config", {}).get(config)
+    except OSError:
+        inv = None
+    if not inv:
+        return facts, []
+    renamed = []
+    for _round in range(4):
+        changed = False
+        text = None
+        # ---- types
+        cur_adts = {a["path"]: a for a in facts.get("adts", [])}
+        missing = [p for p in inv["adts"] if p not in cur_adts]
+        new = [p for p in cur_adts if p not in inv["adts"]]
+        if missing and new:
+            mask = lambda ty: re.sub("|".join(sorted((re.escape(x) for x in missing + new), key=len, reverse=True)), "?", ty)
+            def shape_eq(rs, ca):
+                cv = ca["variants"]
+                if len(rs["variants"]) != len(cv):
+                    return False
+                return all(len(rv["fields"]) == len(v["fields"]) and all(mask(rf[1]) == mask(f["t"]) for rf, f in zip(rv["fields"], v["fields"])) for rv, v in zip(rs["variants"], cv))
+            for n_ in new:
+                cand = [m for m in missing if m.rsplit("::", 1)[0] == n_.rsplit("::", 1)[0] and shape_eq(inv["adts"][m], cur_adts[n_])]
+                if len(cand) == 1 and [x for x in new if x.rsplit("::", 1)[0] == cand[0].rsplit("::", 1)[0] and shape_eq(inv["adts"][cand[0]], cur_adts[x])] == [n_]:
+                    text = text or json.dumps(facts)
+                    text = _path_sub(text, n_, cand[0])
+                    renamed.append("type %s -> %s" % (n_, cand[0]))
+                    changed = True
+        if text is not None:
+            facts = json.loads(text)
+            text = None
+        # ---- fields and variants of types that exist under the reference name (now)
+        all_field_names, all_variant_names = {}, {}
+        for a in facts.get("adts", []):
+            for v in a["variants"]:
+                all_variant_names[v["n"]] = all_variant_names.get(v["n"], 0) + 1
+                for fd_ in v["fields"]:
+                    all_field_names[fd_["n"]] = all_field_names.get(fd_["n"], 0) + 1
+        subs = []
+        for a in facts.get("adts", []):
+            rs = inv["adts"].get(a["path"])
+            if not rs or len(rs["variants"]) != len(a["variants"]):
+                continue
+            for vi, (rv, v) in enumerate(zip(rs["variants"], a["variants"])):
+                if rv["n"] != v["n"] and all_variant_names.get(v["n"]) == 1 and v["n"] not in _STD_NAMES:
+                    subs.append(("variant", a["path"], vi, v["n"], rv["n"]))
+                if len(rv["fields"]) != len(v["fields"]):
+                    continue
+                for fi, (rf, f) in enumerate(zip(rv["fields"], v["fields"])):
+                    if rf[0] != f["n"] and all_field_names.get(f["n"]) == 1 and not f["n"].isdigit():
+                        subs.append(("field", a["path"], fi, f["n"], rf[0]))
+        if subs:
+            text = json.dumps(facts)
+            for kind, ap, idx, newn, oldn in subs:
+                if kind == "field":
+                    text = text.replace('"f": %d, "n": "%s"' % (idx, newn), '"f": %d, "n": "%s"' % (idx, oldn))
+                    text = text.replace('{"n": "%s", "t"' % newn, '{"n": "%s", "t"' % oldn)
+                else:
+                    text = text.replace('"n": "%s"' % newn, '"n": "%s"' % oldn).replace('"variant": "%s"' % newn, '"variant": "%s"' % oldn).replace('"pvariant": "%s"' % newn, '"pvariant": "%s"' % oldn)
+                    text = text.replace("%s::%s" % (ap, newn), "%s::%s" % (ap, oldn))
+                renamed.append("%s %s.%s -> %s" % (kind, ap, newn, oldn))
+            facts = json.loads(text)
+            text = None
+            changed = True
+        # ---- functions
+        cur = {f["path"]: fn_signature(f) for f in facts["fns"] if f["kind"] != "Closure"}
+        ref = {p_: s_ for p_, s_ in inv["fns"].items() if s_["kind"] != "Closure"}
+        missing = [p_ for p_ in ref if p_ not in cur]
+        new = [p_ for p_ in cur if p_ not in ref]
+        if missing and new:
+            def same(rs, cs):
+                return rs["kind"] == cs["kind"] and rs["parent"] == cs["parent"] and rs["impl_trait"] == cs["impl_trait"] and rs["sig"] == cs["sig"]
+            def jac(a, b):
+                a, b = set(a), set(b)
+                return len(a & b) / float(len(a | b) or 1)
+            pairs = []
+            for n_ in new:
+                cand = sorted(((jac(ref[m]["calls"], cur[n_]["calls"]), m) for m in missing if same(ref[m], cur[n_])), reverse=True)
+                if not cand:
+                    continue
+                if len(cand) == 1 or cand[0][0] - cand[1][0] >= 0.2:
+                    pairs.append((n_, cand[0][1], cand[0][0]))
+            taken = {}
+            for n_, m, sc in pairs:
+                taken.setdefault(m, []).append((sc, n_))
+            for m, lst in taken.items():
+                lst.sort(reverse=True)
+                if len(lst) > 1 and lst[0][0] - lst[1][0] < 0.2:
+                    continue
+                n_ = lst[0][1]
+                text = text or json.dumps(facts)
+                text = _path_sub(text, n_, m)
+                renamed.append("fn %s -> %s" % (n_, m))
+                changed = True
+        if text is not None:
+            facts = json.loads(text)
+        if not changed:
+            break
+    return facts, renamed
+
+
+def fold_plain_structs(facts):
+    """A struct the reference tree does not have, without Drop, generics or trait impls, is a named tuple a refactor introduced to carry values together
+    (`Mapping { address, length }` instead of `(address, length)`, a context handed from one phase to the next): it is rewritten to the tuple of its
+    fields -- struct literals become tuple literals, its name in type strings becomes the tuple type -- so the rules see the same plain values as before."""
+    try:
+        known = set(json.load(open(os.path.join(VERIF, "tables", "known_fns.json"))).get("adts", []))
+    except OSError:
+        known = set()
+    if not known:
+        return facts, []
+    done = []
+    for _round in range(4):
+        cand = None
+        text = None
+        for a in facts.get("adts", []):
+            p_ = a["path"]
+            if p_ in known or len(a["variants"]) != 1 or not a["variants"][0]["fields"] or a.get("drop"):
+                continue
+            if any(i.get("self_adt") == p_ and i.get("trait") for i in facts.get("impls", [])):
+                continue
+            text = text or json.dumps(facts)
+            if re.search(r"(?<![A-Za-z0-9_:])" + re.escape(p_) + r"<", text):
+                continue          # generic (lifetime or type parameters): left to the other mechanisms
+            # field types must not mention another candidate that is still a struct (inner ones are done first by the rounds)
+            cand = a
+            break
+        if cand is None:
+            break
+        p_ = cand["path"]
+        ftys = [fd_["t"] for fd_ in cand["variants"][0]["fields"]]
+        tup = "(%s%s)" % (", ".join(ftys), "," if len(ftys) == 1 else "")
+        vname = cand["variants"][0]["n"]
+        text = text.replace(json.dumps({"adt": p_, "variant": vname, "vi": 0}), json.dumps({"tuple": 1}))
+        text = text.replace('"adt": %s' % json.dumps(p_), '"adt": ""')
+        text = re.sub(r"(?<![A-Za-z0-9_:])" + re.escape(p_) + r"(?![A-Za-z0-9_:<])", tup.replace("\\", "\\\\"), text)
+        facts = json.loads(text)
+        facts["adts"] = [a for a in facts["adts"] if a["path"] != p_ and a["path"] != tup]
+        done.append("%s = %s" % (p_, tup))
+    return facts, done
 
 
 def _prune(fdir, keep):
